@@ -98,6 +98,23 @@ def run(ctx):
                 exercise(mk(A.Alias(name)), [0, 1, 258, -2, 0x10203, 1.5])
         exercise(A.BitsSwapped(A.GreedyBytes), [b"", b"\x01\x80", gen.rbytes(rng, 5)])
         exercise(A.BitsSwapped(A.Struct(A.Renamed("n", A.Alias("Byte")), A.Renamed("d", A.Bytes(A.T("n"))))), [{"n": 2, "d": b"\x01\x02"}, {"n": 0, "d": b""}])
+        # ---- bit order swapped over content without a static size (the streaming wrapper): an attempt that runs out of data and is rolled
+        #      back, or a member that ends inside a unit, leaves decoded bytes pending; what reads to the end gets them too
+        for prog, datas in ((A.BitsSwapped(A.Sequence(A.GreedyRange(A.Alias("Int16ub")), A.GreedyBytes)), [b"\x0b", b"\x01\x02\x03", b"\x01\x02", b""]),
+                            (A.BitsSwapped(A.Sequence(A.Optional(A.Alias("Int32ub")), A.GreedyBytes)), [b"\x0b", b"\x01\x02\x03", b"\x01\x02\x03\x04\x05"]),
+                            (A.BitsSwapped(A.Bitwise(A.Struct(A.Renamed("a", A.Alias("Nibble")), A.Renamed("b", A.Alias("Nibble")), A.Renamed("c", A.Alias("Nibble")), A.Renamed("r", A.GreedyBytes)))), [b"\x12\x34", b"\x12\x34\x56\x78"]),
+                            (A.BitsSwapped(A.Struct(A.Renamed("o", A.Optional(A.Const(b"\x80\x40"))), A.Renamed("r", A.GreedyBytes))), [b"\x01", b"\x01\x02\x03", b"\x01\x03"]),
+                            (A.Prefixed(A.Alias("Byte"), A.BitsSwapped(A.Sequence(A.GreedyRange(A.Alias("Int16ub")), A.GreedyBytes))), [b"\x03\x01\x02\x03", b"\x01\x0b"])):
+            con = campaign.realizable(prog)
+            for d in datas:
+                ip, pp = camp.parse(prog, con, d, 0, {})
+                if pp["res"]["ok"]:
+                    try:
+                        camp.build(prog, con, V.dec(pp["res"]["v"]), b"", {}, arg=pp["res"]["v"])
+                    except Exception:
+                        pass
+                nt += 1
+            camp.sh.maybe_flush()
         # ---- compression codecs (uninterpreted pair; graph from the standard library)
         for codec in CODECS:
             for sub, vals in ((A.GreedyBytes, [b"", b"a", b"hello hello hello", gen.rbytes(rng, 40)]),
